@@ -22,6 +22,7 @@ import (
 
 func TestMain(m *testing.M) {
 	caddy.RegisterModule(&udpHandler{})
+	hx.StartStallMonitor()
 	hx.Main(m)
 }
 
@@ -374,14 +375,34 @@ func runHistory(t *rapid.T, idle time.Duration) {
 				// loop's hand), the others - whose associations have ended by then, the notifications waiting - send
 				// again. Each of these datagrams comes long after its client's association ended: a fresh one serves it.
 				e.history = append(e.history, "late datagrams for the others")
-				check(e.send(c, fmt.Sprintf("d%d", 4*wait), 10), "stampede-busy-client")
+				check(e.send(c, fmt.Sprintf("d%d", 3*wait+250), 10), "stampede-busy-client")
 				for i := 0; i < 6 && !wedged; i++ {
 					check(e.send(c, "", 10), "stampede-queue")
 				}
-				time.Sleep(time.Duration(wait+10) * time.Millisecond)
-				for o := 0; o < others && !wedged; o++ {
-					e.lateForEnded = append(e.lateForEnded, [2]int{100 + o, e.seq[100+o]})
-					check(e.send(100+o, "", 12), "stampede-late-datagrams")
+				// "had ended" is observed, not timed: every handler of the others has returned, and 60 ms have passed in
+				// which no goroutine of this process was kept waiting for more than 20 ms (so the few instructions between
+				// a handler's return and the closing of its connection have run)
+				othersEnded := func() bool {
+					e.w.mu.Lock()
+					defer e.w.mu.Unlock()
+					n := 0
+					for _, a := range e.w.assocs {
+						for o := 0; o < others; o++ {
+							if a.client == addr(100+o).String() && a.ended.Load() {
+								n++
+							}
+						}
+					}
+					return n >= others
+				}
+				ended := hx.Eventually(2*time.Second, 5*time.Millisecond, othersEnded)
+				from := time.Now()
+				time.Sleep(60 * time.Millisecond)
+				if ended && hx.Punctual(from, 20*time.Millisecond, "C09/late-datagram-verdict-dropped-after-stall") {
+					for o := 0; o < others && !wedged; o++ {
+						e.lateForEnded = append(e.lateForEnded, [2]int{100 + o, e.seq[100+o]})
+						check(e.send(100+o, "", 12), "stampede-late-datagrams")
+					}
 				}
 				for i := 0; i < 2 && !wedged; i++ {
 					check(e.send(c, "", 10), "stampede-queue")
